@@ -21,6 +21,12 @@ static void vx_emplace_asis(void) { if (VX_W) { vx_emplaces++; } }   /* the patc
 static void vx_emplace_null(void) { if (VX_W) { vx_emplaces++; vx_emplaced_null = true; } }
 static void vx_emplace_copy(void) { if (VX_W) { vx_emplaces++; vx_emplaced_copy = true; } }
 static void vx_emplace_diff(void) { if (VX_W) { vx_emplaces++; vx_recursions++; } }
+/* from_diff, first loop: the values that can be put into the patch are handles; try_emplace keeps the first value emplaced for a name */
+enum { VX_H_NULL = 1, VX_H_TARGET = 2, VX_H_DIFF = 3, VX_H_SOURCE = 4 };
+static bool* vx_s_obj; static bool* vx_t_obj; static bool* vx_t_empty;   /* per member: the source value / the target value is an object; the target value is empty() */
+static int vx_first_h;
+static void vx_emplace_h(int h) { if (VX_W) { if (vx_emplaces == 0) vx_first_h = h; vx_emplaces++; } }
+static bool vx_h_empty(int h) { return h == VX_H_DIFF ? ((vx_s_obj[vx_cur] && vx_t_obj[vx_cur]) ? vx_equal[vx_cur] : vx_t_empty[vx_cur]) : h == VX_H_TARGET ? vx_t_empty[vx_cur] : nondet_bool(); }
 /*@FUNC apply_merge_patch_level@*/
 /*@FUNC from_diff_source_loop@*/
 /*@FUNC from_diff_target_loop@*/
@@ -29,10 +35,11 @@ static void setup(void)
 {
     vx_n = nondet_size(); vx_k = nondet_size(); __CPROVER_assume(vx_n <= 100000000 && vx_k < vx_n);
     vx_null = malloc(vx_n * sizeof(bool)); vx_found = malloc(vx_n * sizeof(bool)); vx_equal = malloc(vx_n * sizeof(bool)); __CPROVER_assume(vx_null && vx_found && vx_equal);
+    vx_s_obj = malloc(vx_n * sizeof(bool)); vx_t_obj = malloc(vx_n * sizeof(bool)); vx_t_empty = malloc(vx_n * sizeof(bool)); __CPROVER_assume(vx_s_obj && vx_t_obj && vx_t_empty); vx_first_h = 0;
     vx_patch_is_object = nondet_bool(); vx_target_is_object = nondet_bool(); vx_source_is_object = nondet_bool();
     vx_erases = 0; vx_emplaces = 0; vx_recursions = 0; vx_rec_on_existing = false; vx_emplaced_null = false; vx_emplaced_copy = false; vx_reset_target = false; vx_returned_patch = false; vx_returned_target = false; vx_order_bad = false; vx_cur = 0;
 }
 void h_apply_merge_patch_level(void) { setup(); apply_merge_patch_level(); }
-void h_from_diff_source_loop(void) { setup(); from_diff_source_loop(); }
+void h_from_diff_source_loop(void) { setup(); __CPROVER_assume(!vx_equal[vx_k] || vx_s_obj[vx_k] == vx_t_obj[vx_k]); from_diff_source_loop(); }
 void h_from_diff_target_loop(void) { setup(); from_diff_target_loop(); }
 #endif
